@@ -21,7 +21,7 @@ RULE = ("random declarations (0-4 groups, 0-12 options of all kinds, names 1-60 
         "to 5 kinds of target stream; distinct_nontrivial = distinct declarations with at least two options "
         "whose text was checked structurally on all stream kinds")
 
-NAMECH = "abcdefghijklmnopqrstuvwxyz0123456789_-"
+NAMECH = "abcdefghijklmnopqrstuvwxyzABCXYZ0123456789_-"
 WORDCH = "abcdefghijklmnopqrstuvwxyzABCDEFGH0123456789.,;:!?()[]<>-_/'\"=+*"
 LETTERS = "abcdefghijklmnopqrstuvwxyzABCDEFGHIJKLMNOPQRSTUVWXYZ0123456789"
 
@@ -62,7 +62,10 @@ def _decl(rng):
     for i in range(n):
         while True:
             nm = _name(rng)
-            if nm not in names:
+            if names and rng.random() < 0.15:
+                # a name that differs from an existing one only in letter case
+                nm = rng.choice(sorted(names)).swapcase()
+            if nm not in names and not nm.lower().startswith(b"no-"):
                 names.add(nm)
                 break
         kind = rng.choice("omt")
